@@ -247,6 +247,10 @@ func specCompress(dst, src []byte) []byte {
 	return append(dst, 0xED)
 }
 
+// specUncompressFn is what the specification reader uses to undo the codec: the
+// model's inverse in the engine, the real decoder in native scenarios.
+var specUncompressFn = specUncompress
+
 func specUncompress(b []byte) ([]byte, bool) {
 	if len(b) < 3 || b[0] != 0xC0 || b[1] != 0xDE || b[len(b)-1] != 0xED {
 		return nil, false
@@ -387,7 +391,7 @@ func specReadChunk(file []byte, meta *specVal, maxRep, maxDef int) (col *specCol
 			plainBody := body
 			if specModelCodec {
 				var okc bool
-				plainBody, okc = specUncompress(body)
+				plainBody, okc = specUncompressFn(body)
 				vAssert(okc && int64(len(plainBody)) == usize, "dictionary page decompresses to uncompressed_page_size bytes")
 			}
 			vAssert(dict.plain(physical, plainBody, dn), "dictionary page holds exactly num_values PLAIN values")
@@ -410,7 +414,7 @@ func specReadChunk(file []byte, meta *specVal, maxRep, maxDef int) (col *specCol
 			if specModelCodec {
 				// a v1 page is compressed as a whole, levels included
 				var okc bool
-				b, okc = specUncompress(body)
+				b, okc = specUncompressFn(body)
 				vAssert(okc && int64(len(b)) == usize, "v1 page decompresses to uncompressed_page_size bytes")
 				if !okc {
 					return col, pages, false
@@ -502,7 +506,7 @@ func specReadChunk(file []byte, meta *specVal, maxRep, maxDef int) (col *specCol
 				// v2: the levels are never compressed, the values are unless is_compressed says otherwise
 				if flag := dh.field(7); flag == nil || flag.i == 1 {
 					var okc bool
-					values, okc = specUncompress(values)
+					values, okc = specUncompressFn(values)
 					vAssert(okc, "v2 values section decompresses")
 					if !okc {
 						return col, pages, false
